@@ -128,7 +128,7 @@ Section Nested.
     - (* FNone *) cbn [SetChain.vset] in Hv. destruct v; try discriminate. inversion Hv; reflexivity.
     - (* FAnything *) inversion Hv; subst; exact Hd.
     - (* FEnumLit *) cbn [SetChain.vset] in Hv. destruct (py_in v vs); [inversion Hv; subst; exact Hd | discriminate].
-    - (* FEnumCls *) cbn [SetChain.vset] in Hv. destruct (negb (py_hashable v)); [discriminate|].
+    - (* FEnumCls *) cbn [SetChain.vset] in Hv.
       destruct v; try discriminate.
       + destruct (alist_get ms s); [inversion Hv; reflexivity | discriminate].
       + destruct (pystr_eqb cls c && alist_has ms name); [inversion Hv; reflexivity | discriminate].
